@@ -165,6 +165,9 @@ pub enum Op {
     Advance(u64),
     /// advance the virtual clock by a number of MICROseconds (changes the sub-millisecond phase)
     AdvanceUs(u64),
+    /// move the virtual clock BACK by a number of milliseconds (a caller handing in a stale instant);
+    /// every schedule keeps counting from the instants its own transmissions were handed out at
+    Rewind(u64),
 }
 
 #[derive(Clone, Debug)]
@@ -235,6 +238,7 @@ impl Op {
             Op::SendData { dest, len } => json!({"op": "send_data", "dest": dest, "len": len}),
             Op::Advance(ms) => json!({"op": "advance", "ms": ms}),
             Op::AdvanceUs(us) => json!({"op": "advance_us", "us": us}),
+            Op::Rewind(ms) => json!({"op": "rewind", "ms": ms}),
         }
     }
     pub fn from_json(v: &Value) -> Option<Op> {
@@ -276,6 +280,7 @@ impl Op {
             "send_data" => Op::SendData { dest: u("dest")? as u8, len: u("len")? as u16 },
             "advance" => Op::Advance(u("ms")?),
             "advance_us" => Op::AdvanceUs(u("us")?),
+            "rewind" => Op::Rewind(u("ms")?),
             _ => return None,
         })
     }
@@ -505,6 +510,9 @@ pub struct RunCfg {
     /// append the observed outstanding / validated sets to the reply log whenever they change
     /// (C20 compares them between runs: they are replies of the agent too)
     pub log_observations: bool,
+    /// run every agent call under the harness's tracing subscriber (everything enabled at TRACE, all
+    /// fields formatted); replies must not depend on whether anybody listens
+    pub with_subscriber: bool,
 }
 
 #[derive(Clone, Debug, Default)]
@@ -628,8 +636,16 @@ impl<'c> Eng<'c> {
 
     fn call<T>(&mut self, f: impl FnOnce(&mut StunAgent) -> T) -> Option<T> {
         let trap = self.cfg.trap_clock;
+        let sub = self.cfg.with_subscriber;
         let agent = &mut self.agent;
-        let r = guard(|| if trap { clock::trapped(|| f(agent)) } else { (f(agent), 0) });
+        let r = guard(|| {
+            let run = || if trap { clock::trapped(|| f(agent)) } else { (f(agent), 0) };
+            if sub {
+                crate::trace_sub::with_subscriber(run)
+            } else {
+                run()
+            }
+        });
         match r {
             Ok((v, reads)) => {
                 self.res.clock_reads += reads;
@@ -1261,7 +1277,8 @@ impl<'c> Eng<'c> {
                 if self.cfg.drain_polls {
                     self.res.orders.push("|".into());
                     let mut evs: Vec<String> = vec![];
-                    for _ in 0..64 {
+                    // a drain serves every transaction that is due at this instant (one event per poll)
+                    for _ in 0..(self.model.txs.len() + 64) {
                         let l0 = self.res.log.len();
                         match self.poll_once() {
                             Some(true) => evs.extend(self.res.log.drain(l0..)),
@@ -1381,6 +1398,11 @@ impl<'c> Eng<'c> {
             }
             Op::Advance(ms) => {
                 self.now += ms * 1000;
+            }
+            Op::Rewind(ms) => {
+                self.now = self.now.saturating_sub(ms * 1000);
+                self.last_wait = None;
+                self.ctx.count("clock-rewinds");
             }
             Op::AdvanceUs(us) => {
                 // moves the sub-millisecond phase of every later instant
@@ -1604,6 +1626,9 @@ pub fn gen_history(rng: &mut Rng, len: usize, ntid: u8, emphasis: &str) -> Histo
                 _ => {
                     if rng.chance(1, 3) {
                         Op::AdvanceUs(*rng.pick(&[1u64, 250, 499, 500, 600, 999, 1001, 1500]))
+                    } else if rng.chance(1, 6) {
+                        // a stale instant: the clock handed in goes back
+                        Op::Rewind(*rng.pick(&[1u64, 499, 500, 501, 10_000, 39_500, 60_000]))
                     } else {
                         Op::Advance(rng.below(3_000))
                     }
@@ -1639,6 +1664,9 @@ pub fn gen_history(rng: &mut Rng, len: usize, ntid: u8, emphasis: &str) -> Histo
                 _ => {
                     if rng.chance(1, 3) {
                         Op::AdvanceUs(*rng.pick(&[1u64, 250, 499, 500, 600, 999, 1001, 1500]))
+                    } else if rng.chance(1, 6) {
+                        // a stale instant: the clock handed in goes back
+                        Op::Rewind(*rng.pick(&[1u64, 499, 500, 501, 10_000, 39_500, 60_000]))
                     } else {
                         Op::Advance(rng.below(5_000))
                     }
